@@ -1,5 +1,4 @@
-"""xtuml/meta.py -> lean/Gen/AttrShape.lean  (C10)
-
+"""xtuml/meta.py -> lean/Gen/AttrShape.lean:
 Reads, with `ast` only, the statement structure of case-insensitive name handling and emits it as a small
 first-order IR:
 
